@@ -266,6 +266,55 @@ MEAS_FUNCS = [
 ]
 
 
+def _linform(f, rd, e, at, bvar, depth=6):
+    """linear form {symbol: coefficient} of a vector-valued update expression; products with a (gain) matrix - np.dot(G, x),
+    G @ x, np.einsum(fmt, G, x) - are positive linear maps of their last argument; None when not linear / not modelled"""
+    def comb(a, b, sb):
+        if a is None or b is None:
+            return None
+        out = dict(a)
+        for k, v in b.items():
+            out[k] = out.get(k, 0) + sb * v
+        return {k: v for k, v in out.items() if v != 0}
+
+    if depth <= 0:
+        return None
+    if isinstance(e, ast.Name):
+        ds = [d for d in rd.reaching(e.id, at) if not d.weak]
+        if ds and all(d.kind == "unpack" and d.var in bvar and isinstance(d.value, ast.Call) and
+                      (dotted(d.value.func) or "").startswith("ops.chop_in_blocks_vector") for d in ds):
+            return {bvar[e.id]: 1}
+        if len(ds) == 1 and ds[0].kind == "assign" and ds[0].index is None and isinstance(ds[0].value, ast.AST):
+            inner = _linform(f, rd, ds[0].value, ds[0].node, bvar, depth - 1)
+            if inner is not None and (set(inner) & {"a", "c"}):
+                return inner
+        return {"o:" + e.id: 1}
+    if isinstance(e, ast.BinOp) and isinstance(e.op, (ast.Add, ast.Sub)):
+        return comb(_linform(f, rd, e.left, at, bvar, depth), _linform(f, rd, e.right, at, bvar, depth),
+                    1 if isinstance(e.op, ast.Add) else -1)
+    if isinstance(e, ast.UnaryOp) and isinstance(e.op, ast.USub):
+        return comb({}, _linform(f, rd, e.operand, at, bvar, depth), -1)
+    if isinstance(e, ast.UnaryOp) and isinstance(e.op, ast.UAdd):
+        return _linform(f, rd, e.operand, at, bvar, depth)
+    if isinstance(e, ast.BinOp) and isinstance(e.op, ast.MatMult):
+        return _linform(f, rd, e.right, at, bvar, depth)
+    if isinstance(e, ast.Call) and dotted(e.func) in ("np.dot", "np.matmul") and len(e.args) == 2:
+        return _linform(f, rd, e.args[1], at, bvar, depth)
+    if isinstance(e, ast.Call) and dotted(e.func) == "np.einsum" and len(e.args) == 3 and isinstance(e.args[0], ast.Constant):
+        return _linform(f, rd, e.args[2], at, bvar, depth)
+    if isinstance(e, ast.Subscript):
+        return _linform(f, rd, e.value, at, bvar, depth)
+    if isinstance(e, ast.BinOp) and isinstance(e.op, (ast.Mult, ast.Div)):
+        for c_, o_ in ((e.left, e.right), (e.right, e.left)):
+            if isinstance(c_, ast.Constant) and isinstance(c_.value, (int, float)) and (isinstance(e.op, ast.Mult) or c_ is e.right):
+                inner = _linform(f, rd, o_, at, bvar, depth)
+                if inner is None:
+                    return None
+                k = c_.value if isinstance(e.op, ast.Mult) else 1 / c_.value
+                return {s_: v * k for s_, v in inner.items()}
+    return {"o:" + ast.unparse(e)[:20]: 1}
+
+
 def gain(ctx, rule="C06.gain"):
     ctx.explain(f"{rule}: in every general-dyne update the covariance update (Schur complement), the mean update and the "
                 "re-weighting use the inverse of one and the same matrix (measured block + measurement noise): all "
@@ -308,6 +357,25 @@ def gain(ctx, rule="C06.gain"):
                    "gain * (outcome - prior mean)", role="innovation", line=invs[0].lineno)
         else:
             ctx.na(rule, f.site, "mean update (chop_in_blocks_vector -> fromsmean / self.means) not recognised")
+        # sign law of the update: new kept mean = (+1) * prior kept mean + gain * (outcome - prior measured mean): evaluated
+        # as a linear form in which a product with the gain matrix is a positive linear map of its vector argument
+        if blocks:
+            bvar = {d.var: ("a" if k_ == 0 else "c") for k_, dset in blocks.items() for d in dset}
+            for nd in rdm.cfg.nodes:
+                st = nd.ast
+                if nd.kind != "stmt" or not isinstance(st, ast.Assign) or not isinstance(st.targets[0], ast.Name):
+                    continue
+                direct = {x.id for x in ast.walk(st.value) if isinstance(x, ast.Name)}
+                if not any(bvar.get(x) == "a" for x in direct):
+                    continue
+                lf = _linform(f, rdm, st.value, nd.id, bvar)
+                if lf is None or "c" not in lf:
+                    continue
+                others = {k_: v_ for k_, v_ in lf.items() if k_ not in ("a", "c")}
+                ok = lf.get("a") == 1 and lf.get("c") == -1 and all(v_ == 1 for v_ in others.values())
+                ctx.ob(rule, f.site, ok, "" if ok else f"`{ast.unparse(st)[:60]}` evaluates to the linear form {lf}: the "
+                       "conditional mean must be prior + gain * (outcome - prior mean of the measured block), i.e. kept block +1, "
+                       "measured block -1, outcome +1", role="innovation-sign", line=st.lineno)
         per_file.setdefault(rel, []).append((qn, texts))
     ctx.floor(rule, 10)
 
